@@ -1183,6 +1183,30 @@ buildCommand(BuildContext& context, ninja::Command* command) {
             }
         }
 
+        // A phony command whose output is not a file is an alias for its
+        // inputs. As in Ninja, such an alias is as new as its newest input:
+        // report that timestamp in place of the missing output, so that the
+        // value only changes (and dependents only rerun) when an input did.
+        // An alias without any input, or with an input that is itself missing,
+        // keeps the "always dirty" behavior.
+        if (forceChange && !shouldSkip && canUpdateIfNewer &&
+            (newestModTime.seconds != 0 || newestModTime.nanoseconds != 0)) {
+          unsigned numOutputs = result.getNumOutputs();
+          std::vector<FileInfo> outputInfos(numOutputs);
+          for (unsigned i = 0; i != numOutputs; ++i) {
+            outputInfos[i] = result.getNthOutputInfo(i);
+            if (outputInfos[i].isMissing())
+              outputInfos[i].modTime = newestModTime;
+          }
+          if (numOutputs == 1) {
+            return ti.complete(BuildValue::makeSuccessfulCommand(
+                                   outputInfos[0], commandHash).toValue());
+          }
+          return ti.complete(BuildValue::makeSuccessfulCommand(
+                                 outputInfos.data(), numOutputs,
+                                 commandHash).toValue());
+        }
+
         return ti.complete(result.toValue(), forceChange);
       }
 
